@@ -675,6 +675,12 @@ func (w *pfWorld) step(st *pfStep) M {
 		}
 	}
 	ora["reMatch"] = reMatch
+	hnp := req.Host
+	if h, _, err := net.SplitHostPort(req.Host); err == nil {
+		hnp = h
+	}
+	ora["hostNoPort"] = hnp
+	ora["httpsLocation"] = (&url.URL{Scheme: "https", Host: req.Host, Path: req.URL.Path, RawQuery: req.URL.RawQuery}).String()
 	ora["reqHost"] = req.Host
 	if routed >= 0 {
 		u := w.cfg.Upstreams[routed]
